@@ -1,14 +1,29 @@
 """C13 Every input is answered with output or a located diagnostic (DESIGN.md §3 C13).
 
-Static disciplines whose breach is a crash (SIGSEGV / assertion) or an
-"internal error" on some input:
+Static disciplines whose breach is a crash (SIGSEGV / SIGABRT), an "internal error" or a silent failure on some input.
+Engine: sa/lib_c13.py (forward guard-fact analysis over clang's typed AST, bounded disjunctive, per function, with
+one-level summaries computed to a fixpoint over all units) plus Engine I (sa/interp.py) for the witness check of R13.4.
 
-  R13.1 nullable dereference   (guard facts, sa/lib_c13.py)
-  R13.2 variant fields         (field assigned only for kind K, read under kind K' != K)
-  R13.3 size dispatch          (sizes reaching an `unreachable()` dispatcher)
-  R13.4 assertions             (size assertions of the struct-return helpers vs. the empty aggregate)
-  R13.6 located diagnostics    (token argument of error_tok/warn_tok is never NULL)
-  R13.7 subprocess status      (every non-zero wait status ends in exit(non-zero))
+  R13.1 nullable dereference   every dereference of a value from a nullable source is dominated by a non-null fact.
+                               Sources: frozen field table (NULLABLE_FIELDS), the global cond_incl, and *derived* tables:
+                               parameters that receive NULL (literal NULL at a call site, transitively), functions that
+                               can return NULL (own `return NULL`, transitively; libc list).  Callee summaries: parameters
+                               dereferenced unconditionally, facts that hold on return (guards/predicates), constructor kinds.
+  R13.2 variant fields         a pointer field of Node/Type assigned only when constructing kinds K (derived from all stores)
+                               is not read under a dominating kind fact that excludes K.
+  R13.3 size dispatch          sizes that can reach a dispatcher ending in unreachable(): kinds possible at the call (caller's
+                               guards + typing relation derived from add_type) x size table read from type.c; plus the
+                               keyword dispatch of declspec vs. is_typename's table.
+  R13.4 assertions             assert() sites: unreachable by guard facts / value sets, or (struct-return helpers) interpreted
+                               on a witness catalogue of aggregates <= 16 bytes.
+  R13.5 argv bounds            every option that consumes argv[++i] is validated by take_arg()'s loop.
+  R13.6 located diagnostics    token argument of every error_tok/warn_tok is never a may-be-NULL value; verror_at prints
+                               "file:line: " from its arguments; error* exit non-zero.
+  R13.7 subprocess status      the code after wait() exits non-zero for every exit code 1..255 and every signal (+core).
+
+Not implemented (stated, not claimed): error_at's pointer lies inside current_file->contents (R13.6, second clause);
+store_fp/store_gp call sites whose argument is MIN(8,size) / size-8 (R13.3, listed as not judged in the evidence);
+assert(depth == 0), assert(ty->size <= 16) in emit_text and the two asserts of hashmap.c:rehash (R13.4, listed).
 """
 from ..build import AnalysisBroken
 from .. import lib_c13 as L
@@ -42,16 +57,10 @@ ASSUMED = {
     ('parse.c', 'count_array_init_elements', 'param#2(Type*)->base'): 'only caller array_initializer1 passes init->ty of an array',
     ('parse.c', 'asm_stmt', 'param#2(Token*)->ty->base'): 'a TK_STR token carries an array type (tokenize.c read_string_literal)',
     ('preprocess.c', 'join_adjacent_string_literals', 'Token->ty->base'): 'a TK_STR token carries an array type',
-    ('preprocess.c', 'join_adjacent_string_literals', '(Type*)'): 'base type of a string literal token',
-    ('parse.c', 'function', '(Type*)->return_ty'): 'caller parse() calls function() only when is_function() saw TY_FUNC',
     ('parse.c', 'function', 'Type->return_ty'): 'caller parse() calls function() only when is_function() saw TY_FUNC',
     ('parse.c', 'stmt', 'current_fn->ty->return_ty'): 'current_fn is a function object',
-    ('parse.c', 'new_alloca', 'builtin_alloca->ty->return_ty'): 'builtin_alloca is declared with func_type()',
     ('codegen.c', 'copy_struct_reg', 'current_fn->ty->return_ty'): 'current_fn is a function object',
     ('codegen.c', 'copy_struct_mem', 'current_fn->ty->return_ty'): 'current_fn is a function object',
-    ('type.c', 'add_type', 'param#1(Node*)->func_ty->return_ty'): 'func_ty of ND_FUNCALL is the callee function type (funcall)',
-    ('type.c', 'is_compatible', 'param#2(Type*)->return_ty'): 't1->kind == t2->kind was tested and t1->kind is TY_FUNC',
-    ('type.c', 'is_compatible', 'param#2(Type*)->base'): 't1->kind == t2->kind was tested before the switch on t1->kind',
 }
 
 
@@ -72,12 +81,13 @@ def run(P, rep, tier):
                        'one-level call summaries computed to a fixpoint over all units) proves every dereference of a value from a nullable source '
                        '(frozen field table, parameters that receive NULL, functions that return NULL) dominated by a non-null fact; variant fields are '
                        'derived from the constructor sites; size dispatchers are compared with the sizes their callers can pass under the callers\' kind '
-                       'guards and the typing relation established by add_type; the wait-status test of the driver is evaluated over all 16-bit statuses. '
+                       'guards and the typing relation established by add_type; assertions of the struct-return helpers are interpreted on a witness catalogue of small aggregates; '
+                       'the code after wait() is evaluated concretely for every exit code and every signal. '
                        'Not decided: termination, acceptance of all byte strings, recursion depth.')
-    rep.assumptions += ['calloc/malloc/open_memstream succeed', 'a callee does not reset an object field the caller has just tested (no alias kills); globals are killed only by direct writers',
+    rep.assumptions += ['calloc/malloc/open_memstream succeed', 'every Node that reaches the code generator was typed by add_type and is not modified afterwards (typing relation injected into codegen.c)',
+                        'a forced merge of analysis states (more than %d disjuncts, loop widening) makes disagreeing facts unknown, never may-be-NULL' % L.CAP, 'a callee does not reset an object field the caller has just tested (no alias kills); globals are killed only by direct writers',
                         'facts established in other functions, each confirmed by reading: ' + '; '.join('%s:%s %s (%s)' % (k[0], k[1], k[2], v) for k, v in sorted(ASSUMED.items()))]
     W = _world(P)
-    hooks = {}
     engs = L.solve(W)
     rep.extra['derived_tables'] = {
         'nullable_params': sorted('%s#%d' % (f, i + 1) for (f, i) in W.nullable_params),
